@@ -129,6 +129,12 @@ func (vc *VC) doAppend(fr *Frame, st *State, x *ssa.Call, args []*Val) *Val {
 		vc.assume(fmt.Sprintf("(forall ((a Int)) (! (=> (and (<= (sptr %s) a) (< a (+ (sptr %s) %s))) (= (select %s (ite %s a (+ %s (- a (sptr %s))))) (select %s a))) :pattern ((select %s a))))",
 			s.S, s.S, l, nh, inplace, np, s.S, h, h))
 	}
+	// index form: element k of the result is element k of the operand (trigger:
+	// an indexed read of the result)
+	if !vc.absQuant {
+		vc.assume(fmt.Sprintf("(forall ((k Int)) (! (=> (and (<= 0 k) (< k %s)) (= (select %s (idx (sptr %s) k)) (select %s (idx (sptr %s) k)))) :pattern ((idx (sptr %s) k))))",
+			l, nh, res, h, s.S, res))
+	}
 	// ground facts about the appended elements (they seed quantifier instantiation)
 	if t.KLen > 0 && t.KLen <= 4 {
 		for i := 0; i < t.KLen; i++ {
